@@ -46,3 +46,154 @@ Proof.
     + apply Qle_lteq. right. apply sumQ_ext. intros i Hi. rewrite sumQ_scale. fold (Arow n Aeq i x).
       rewrite (Heq i Hi). ring.
 Qed.
+Lemma certificate_optimal n m k c Aub bub Aeq beq x lam :
+  primal_feasible n m k Aub bub Aeq beq x -> dual_feasible n m k c Aub Aeq lam ->
+  dotn n c x == dual_obj m k bub beq lam ->
+  forall x', primal_feasible n m k Aub bub Aeq beq x' -> dotn n c x' <= dotn n c x.
+Proof. intros Hp Hd He x' Hp'. rewrite He. eapply weak_duality; eauto. Qed.
+
+(* and the multipliers are optimal for the dual *)
+Lemma certificate_dual_optimal n m k c Aub bub Aeq beq x lam :
+  primal_feasible n m k Aub bub Aeq beq x -> dual_feasible n m k c Aub Aeq lam ->
+  dotn n c x == dual_obj m k bub beq lam ->
+  forall lam', dual_feasible n m k c Aub Aeq lam' -> dual_obj m k bub beq lam <= dual_obj m k bub beq lam'.
+Proof. intros Hp Hd He lam' Hd'. rewrite <- He. eapply weak_duality; eauto. Qed.
+
+(* ------------------------------------------------------------------ _pivot_col *)
+Notation optsQ := (@PivOptions Q).
+
+Lemma pivot_col_loop_spec crit js found pc coeff f' pc' :
+  pivot_col_loop crit js found pc coeff = (f', pc') ->
+  (found = true -> vget crit pc == coeff) ->
+  (f' = true -> (found = true /\ pc' = pc \/ In pc' js) /\ coeff <= vget crit pc'
+                /\ forall j, In j js -> vget crit j <= vget crit pc') /\
+  (f' = false -> found = false /\ forall j, In j js -> vget crit j <= coeff).
+Proof.
+  revert found pc coeff. induction js as [|j r IH]; intros found pc coeff H Hinv; cbn [pivot_col_loop] in H.
+  - inversion H; subst. split.
+    + intros ->. split; [left; auto|]. split; [rewrite Hinv by auto; lra|intros j []].
+    + intros ->. split; auto. intros j [].
+  - destruct (nltb coeff (vget crit j)) eqn:E.
+    + apply nltb_lt in E. destruct (IH _ _ _ H) as [H1 H2]; [reflexivity|]. split.
+      * intros Hf. destruct (H1 Hf) as (Ha & Hb & Hc). split; [|split].
+        -- right. destruct Ha as [[_ ->]|Ha]; [now left|now right].
+        -- lra.
+        -- intros j' [<-|Hj']; auto.
+      * intros Hf. destruct (H2 Hf) as [Hd _]. discriminate.
+    + apply nltb_false in E. destruct (IH _ _ _ H Hinv) as [H1 H2]. split.
+      * intros Hf. destruct (H1 Hf) as (Ha & Hb & Hc). split; [|split]; auto.
+        -- destruct Ha as [Ha|Ha]; [left; auto|right; now right].
+        -- intros j' [<-|Hj']; auto. lra.
+      * intros Hf. destruct (H2 Hf) as [Hd He]. split; auto. intros j' [<-|Hj']; auto.
+Qed.
+
+Lemma pivot_col_spec L nc (T : matQ) skip (o : optsQ) f pc :
+  wf (S L) nc T -> pivot_col T skip o = (f, pc) ->
+  let stop := (nc - 1 - (if skip then L else 0))%nat in
+  (f = true -> (pc < stop)%nat /\ fea_tol o < get T L pc) /\
+  (f = false -> forall j, (j < stop)%nat -> get T L j <= fea_tol o).
+Proof.
+  intros Hwf H. unfold pivot_col in H.
+  assert (E1 : (nrows T - 1 = L)%nat) by (unfold nrows; destruct Hwf as [-> _]; lia).
+  assert (E2 : ncols T = nc) by (apply (wf_ncols (S L)); auto; lia).
+  rewrite E1, E2 in H. cbv zeta.
+  destruct (pivot_col_loop_spec _ _ _ _ _ _ _ H) as [H1 H2]; [discriminate|].
+  change (vget (nth L T []) ?j) with (get T L j) in *.
+  split.
+  - intros Hf. destruct (H1 Hf) as (Ha & Hb & Hc). destruct Ha as [[? _]|Ha]; [discriminate|].
+    apply in_seq in Ha. split; [lia|]. subst f.
+    (* strictness: the first update was strict *)
+    clear H1 H2. revert H. generalize (seq 0 (nc - 1 - (if skip then L else 0))).
+    intros js H.
+    assert (G : forall js found pc0 coeff, pivot_col_loop (nth L T []) js found pc0 coeff = (true, pc) ->
+                 (found = true -> fea_tol o < coeff) -> (found = true -> get T L pc0 == coeff) ->
+                 fea_tol o <= coeff -> fea_tol o < get T L pc).
+    { clear. induction js as [|j r IH]; intros found pc0 coeff H Hs Hv Hle; cbn [pivot_col_loop] in H.
+      - inversion H; subst. rewrite Hv by auto. auto.
+      - change (vget (nth L T []) j) with (get T L j) in H. destruct (nltb coeff (get T L j)) eqn:E.
+        + apply nltb_lt in E. apply (IH _ _ _ H); intros; try reflexivity; lra.
+        + apply (IH _ _ _ H); auto. }
+    apply (G _ _ _ _ H); try discriminate. lra.
+  - intros Hf j Hj. destruct (H2 Hf) as [_ He]. apply He. apply in_seq. lia.
+Qed.
+
+(* ------------------------------------------------------------------ the tableau invariant *)
+(* T0: the L constraint rows of the initial tableau, identity block at columns a .. a+L;
+   obj: objective of the current phase as a function of the column *)
+Record tab_inv (L nc a : nat) (T0 : matQ) (obj : nat -> Q) (T : matQ) (basis : list nat) : Prop := {
+  ti_nc : (0 < nc)%nat;
+  ti_a : (a + L <= nc - 1)%nat;
+  ti_wf : wf (S L) nc T;
+  ti_len : length basis = L;
+  ti_bas : forall i, (i < L)%nat -> (nth i basis 0 < nc - 1)%nat;
+  ti_rows : forall i, (i < L)%nat -> comb_lin L a nc T0 (rowf T i);
+  ti_crit : comb_aff L a nc T0 obj (rowf T L);
+  ti_unit : unit_cols (S L) L T basis;
+  ti_sol : forall u, solves L nc T u -> solves L nc T0 u
+}.
+Definition rhs_nonneg (L nc : nat) (T : matQ) : Prop := forall i, (i < L)%nat -> 0 <= get T i (nc - 1)%nat.
+
+Lemma tab_inv_pivot L nc a T0 obj T basis c r :
+  tab_inv L nc a T0 obj T basis -> (r < L)%nat -> (c < nc - 1)%nat -> ~ get T r c == 0 ->
+  tab_inv L nc a T0 obj (pivoting T c r) (set_nth basis r c).
+Proof.
+  intros [Hnc Ha Hwf Hlen Hbas Hrows Hcrit Hunit Hsol] Hr Hc Hp.
+  constructor; auto.
+  - apply wf_pivoting; auto.
+  - now rewrite length_set_nth.
+  - intros i Hi. rewrite nth_set_nth. destruct (Nat.eqb i r); [destruct (Nat.ltb r (length basis))|]; auto.
+  - intros i Hi. destruct (Nat.eq_dec i r) as [->|Hne].
+    + eapply pivoting_comb_lin_pivrow; eauto; lia.
+    + eapply pivoting_comb_aff_other; eauto; try lia. apply Hrows; auto.
+  - eapply pivoting_comb_aff_other; eauto; try lia.
+  - eapply unit_cols_pivoting; eauto; try lia. intros i Hi. specialize (Hbas i Hi). lia.
+  - intros u Hu. apply Hsol. eapply solves_pivoting_back; eauto; lia.
+Qed.
+
+(* one pass through the loop body of solve_tableau keeps the invariant, for all tolerances >= 0 *)
+Theorem solve_tableau_inv L nc a T0 obj (o : optsQ) skip :
+  0 <= tol_piv o ->
+  forall fuel T basis ni,
+    tab_inv L nc a T0 obj T basis ->
+    let '(T', basis', _, _, _) := solve_tableau_loop fuel T basis skip o ni in
+    tab_inv L nc a T0 obj T' basis'.
+Proof.
+  intros Htol. induction fuel as [|f IH]; intros T basis ni Hinv; cbn [solve_tableau_loop]; auto.
+  destruct (pivot_col T skip o) as [cf pc] eqn:Epc.
+  destruct cf; cbn [negb]; auto.
+  assert (E1 : (nrows T - 1 = L)%nat) by (unfold nrows; destruct (ti_wf _ _ _ _ _ _ _ Hinv) as [-> _]; lia).
+  assert (E2 : ncols T = nc) by (apply (wf_ncols (S L)); [apply (ti_wf _ _ _ _ _ _ _ Hinv)|lia]).
+  rewrite E1, E2.
+  destruct (lex_min_ratio_test_n L T pc (nc - L - 1) (tol_piv o) (tol_ratio_diff o)) as [rf pr] eqn:Er.
+  destruct rf; cbn [negb]; auto.
+  apply lex_min_ratio_test_n_spec in Er. destruct Er as [Hr Hp].
+  destruct (pivot_col_spec L nc T skip o _ _ (ti_wf _ _ _ _ _ _ _ Hinv) Epc) as [Hc _].
+  destruct (Hc eq_refl) as [Hc1 _].
+  apply IH. apply tab_inv_pivot; auto; [lia|lra].
+Qed.
+
+(* tolerance 0: the right-hand side stays non-negative *)
+Definition opts0 : optsQ := {| fea_tol := 0; tol_piv := 0; tol_ratio_diff := 0 |}.
+
+Theorem solve_tableau_rhs_nonneg L nc a T0 obj skip :
+  forall fuel T basis ni,
+    tab_inv L nc a T0 obj T basis -> rhs_nonneg L nc T ->
+    let '(T', _, _, _, _) := solve_tableau_loop fuel T basis skip opts0 ni in
+    rhs_nonneg L nc T'.
+Proof.
+  induction fuel as [|f IH]; intros T basis ni Hinv Hrhs; cbn [solve_tableau_loop]; auto.
+  destruct (pivot_col T skip opts0) as [cf pc] eqn:Epc.
+  destruct cf; cbn [negb]; auto.
+  assert (E1 : (nrows T - 1 = L)%nat) by (unfold nrows; destruct (ti_wf _ _ _ _ _ _ _ Hinv) as [-> _]; lia).
+  assert (E2 : ncols T = nc) by (apply (wf_ncols (S L)); [apply (ti_wf _ _ _ _ _ _ _ Hinv)|lia]).
+  rewrite E1, E2.
+  destruct (lex_min_ratio_test_n L T pc (nc - L - 1) (tol_piv opts0) (tol_ratio_diff opts0)) as [rf pr] eqn:Er.
+  destruct rf; cbn [negb]; auto.
+  pose proof (lex_min_ratio_test_n_spec _ _ _ _ _ _ _ Er) as [Hr Hp].
+  pose proof (lex_min_ratio_test_n_min _ _ _ _ _ Er) as Hmin. rewrite E2 in Hmin.
+  destruct (pivot_col_spec L nc T skip opts0 _ _ (ti_wf _ _ _ _ _ _ _ Hinv) Epc) as [Hc _].
+  destruct (Hc eq_refl) as [Hc1 _]. cbn in Hp.
+  apply IH.
+  - apply tab_inv_pivot; auto; [lia|lra].
+  - intros i Hi. eapply (pivoting_rhs_nonneg (S L) nc L); eauto; try lia. apply (ti_wf _ _ _ _ _ _ _ Hinv).
+Qed.
